@@ -26,6 +26,10 @@ namespace Rpc
 inductive Loc where
   | mailbox (a : Nat)      -- inside a message queued at actor `a`
   | actor (a : Nat)        -- held by `a`'s running handler or state: dropped when `a` exits
+  /-- inside the boxed state of the `ActorTerminated(cell, Some(state), _)` event of actor `a`
+  (graceful stop of a supervised actor): queued at, or stashed by, `a`'s supervisor — lives as
+  long as that event -/
+  | event (a : Nat)
   | detached               -- moved to a task that outlives the callee
   | replied (v : Nat)      -- `send v` was called on it (consumed)
   | dropped                -- dropped without a reply
@@ -45,6 +49,14 @@ structure Call where
   res : Option Res               -- `none`: the caller is still waiting
   group : Option Nat             -- `multi_call` group
   forward : Option Nat           -- `call_and_forward` target actor
+  /-- the id of the port whose RECEIVING half this caller awaits (`let (tx, rx) = oneshot()`:
+  `tx` travels in the message as port `p`, the caller keeps `rx`). The caller's result is read
+  from the channel of port `rx` — NOT from its own record — so a cross-wired caller (`rx ≠ p`)
+  is expressible; `C09.caller_reads_own_port` proves it never happens. -/
+  rx : Nat
+  /-- `multi_call`: the index `i` of `rx_ports.into_iter().enumerate()` threaded into this member's
+  receiver task (`(i, result)`): where its result is written in the result vector. 0 for other calls. -/
+  slot : Nat := 0
   deriving Repr, DecidableEq
 
 inductive Item where
@@ -57,6 +69,17 @@ structure Actor where
   draining : Bool
   mailbox : List Item
   received : List Nat            -- forwarded values handled, in order
+  sup : Option Nat := none       -- supervisor (index in `S.sups`) the actor was spawned linked to
+  deriving Repr, DecidableEq
+
+/-- A supervisor: an actor whose `handle_supervisor_evt` decides, for every termination event
+that carries the child's last state, whether to keep (stash) or drop it. Events are named by
+the child they report (an actor terminates once). Events without a state (kill, failure)
+hold no port and are not tracked. -/
+structure Sup where
+  alive : Bool
+  inbox : List Nat               -- state-carrying termination events not yet handled, in arrival order
+  stash : List Nat               -- events the supervisor decided to keep
   deriving Repr, DecidableEq
 
 structure S where
@@ -64,9 +87,21 @@ structure S where
   actors : List Actor
   calls : List Call
   groups : Nat                   -- number of multi_call groups created
+  sups : List Sup := []
+  /-- ghost history: every `RpcReplyPort::send` that was performed, in order: (port id, value) -/
+  sent : List (Nat × Nat) := []
+  /-- ghost: the actors each `multi_call` was asked to call, in request order (one list per group) -/
+  mreqs : List (List Nat) := []
+  /-- ghost: every forward `call_and_forward` attempted: (call, target, value, target accepted it) -/
+  fwdlog : List (Nat × Nat × Nat × Bool) := []
+  /-- the result vector of each `multi_call` (`results.resize_with(n, …)` then `results[i] = r` as the
+  members complete, in completion order); `none` = not written yet -/
+  mresults : List (List (Option Res)) := []
   deriving Repr
 
-def init : S := { now := 0, actors := [], calls := [], groups := 0 }
+def init : S :=
+  { now := 0, actors := [], calls := [], groups := 0, sups := [], sent := [], mreqs := [], fwdlog := [],
+    mresults := [] }
 
 /-- what the callee's handler does with a dequeued call -/
 inductive Act where
@@ -86,6 +121,23 @@ inductive Op where
   | stop (a : Nat) (act : Act)
   | drain (a : Nat)
   | advance (d : Nat)
+  | spawnSup                            -- a new supervisor
+  | spawnl (u : Nat)                    -- `spawn_linked` under supervisor `u` (fails if `u` is gone)
+  /-- supervisor `u` handles the next queued termination event: stash it (`keep`) or drop it -/
+  | suphandle (u : Nat) (keep : Bool)
+  | supdrop (u a : Nat)                 -- `u` drops the stashed event of actor `a`
+  | supexit (u : Nat)                   -- `u` is killed: inbox and stash are dropped, its children are killed
+  /-- `cast` (`rpc::cast`, `ActorRef::cast`, `cast!`, `DerivedActorRef::{cast, send_message}`): a
+  plain message carrying `v` is enqueued iff the actor accepts messages -/
+  | cast (a v : Nat)
+  /-- the handler of `a`'s current message FAILS (returns `Err` or panics): `ActorErr::Failed` →
+  `SupervisionEvent::ActorFailed(cell, err)` carries NO state; the handler future (with the port it
+  dequeued), the mailbox and the state (dropped when the actor task ends) all go — for the ports
+  exactly a kill. Nothing to fail when no message is being handled. -/
+  | fail (a : Nat)
+  /-- `handle a act` and `advance d` in ONE step: the handler's action and the clock reaching
+  `now + d` are seen together by the callers (a reply available at the deadline instant) -/
+  | handleAt (a : Nat) (act : Act) (d : Nat)
   deriving Repr
 
 def accepting (s : S) (a : Nat) : Bool :=
@@ -124,9 +176,64 @@ def deliverForwards (before after : List Call) (actors : List Actor) : List Acto
   newly.foldl (fun acts (f, v) =>
     acts.modify f (fun x => if x.alive && !x.draining then { x with mailbox := x.mailbox ++ [.fwd v] } else x)) actors
 
-def resolve (s : S) : S :=
+/-- The forwards performed by one `resolve`: call number `off + i` forwards iff it was waiting, has
+just become `Success v` and is a forward-call; `acc f` = the target accepted the message. (Ghost
+bookkeeping of exactly the `newly` list of `deliverForwards`, with the call ids kept —
+`Lemmas/RpcForward: deliverForwards_eq_log`.) -/
+def newFwdFrom (acc : Nat → Bool) (g : Call → Call) : Nat → List Call → List (Nat × Nat × Nat × Bool)
+  | _, [] => []
+  | off, b :: rest =>
+    (match b.res, (g b).res, (g b).forward with
+     | none, some (.success v), some f => [(off, f, v, acc f)]
+     | _, _, _ => []) ++ newFwdFrom acc g (off + 1) rest
+
+/-- The members completing in one `resolve` write their results through their threaded index:
+`results[slot] = r` (in the order the join-set yields them — here port order; the slots of a group
+are distinct, so the order does not matter: `Lemmas/RpcResults`). -/
+def writeFrom (f : Call → Call) : List (List (Option Res)) → List Call → List (List (Option Res))
+  | M, [] => M
+  | M, b :: rest =>
+    writeFrom f (match b.res, (f b).res, b.group with
+      | none, some r, some g => M.modify g (fun v => v.set b.slot (some r))
+      | _, _, _ => M) rest
+
+def acceptingIn (actors : List Actor) (a : Nat) : Bool :=
+  match actors[a]? with
+  | some x => x.alive && !x.draining
+  | none => false
+
+/-- the caller-local reading (each caller looks at the channel in its OWN record): what `resolve`
+amounts to once `rx = p` is known (`Lemmas: resolve_eq_local`) -/
+def resolveLocal (s : S) : S :=
   let calls' := s.calls.map (resolveCall s.now)
-  { s with calls := calls', actors := deliverForwards s.calls calls' s.actors }
+  { s with calls := calls', actors := deliverForwards s.calls calls' s.actors,
+           fwdlog := s.fwdlog ++ newFwdFrom (acceptingIn s.actors) (resolveCall s.now) 0 s.calls,
+           mresults := writeFrom (resolveCall s.now) s.mresults s.calls }
+
+/-- state of the channel of port `q`, as its receiver sees it -/
+def portLoc (calls : List Call) (q : Nat) : Loc :=
+  match calls[q]? with
+  | some c => c.loc
+  | none => .dropped
+
+/-- A waiting caller polls the receiving half it holds — the channel of port `c.rx`. -/
+def resolveVia (now : Nat) (calls : List Call) (c : Call) : Call :=
+  match c.res with
+  | some _ => c
+  | none =>
+    match portLoc calls c.rx with
+    | .replied v => { c with res := some (.success v) }
+    | .dropped => { c with res := some .senderError }
+    | _ =>
+      match c.deadline with
+      | some d => if d ≤ now then { c with res := some .timeout } else c
+      | none => c
+
+def resolve (s : S) : S :=
+  let calls' := s.calls.map (resolveVia s.now s.calls)
+  { s with calls := calls', actors := deliverForwards s.calls calls' s.actors,
+           fwdlog := s.fwdlog ++ newFwdFrom (acceptingIn s.actors) (resolveVia s.now s.calls) 0 s.calls,
+           mresults := writeFrom (resolveVia s.now s.calls) s.mresults s.calls }
 
 /-- drop every port located in `a`'s mailbox or held by `a` -/
 def dropPortsOf (a : Nat) (c : Call) : Call :=
@@ -144,15 +251,84 @@ def exitActor (s : S) (a : Nat) : S :=
     else s
   | none => s
 
+/-! ### supervisors holding the last state of a gracefully stopped child -/
+
+/-- some live supervisor holds (queued or stashed) the termination event of actor `a` -/
+def supHolds (sups : List Sup) (a : Nat) : Bool :=
+  sups.any (fun u => u.alive && (u.inbox.contains a || u.stash.contains a))
+
+/-- some live supervisor has STASHED the termination event of actor `a` (it can reach into the state) -/
+def supStashed (sups : List Sup) (a : Nat) : Bool :=
+  sups.any (fun u => u.alive && u.stash.contains a)
+
+def supAlive (s : S) (u : Nat) : Bool :=
+  match s.sups[u]? with
+  | some x => x.alive
+  | none => false
+
+/-- the ports held in `a`'s state travel with the boxed state into `a`'s termination event -/
+def toEvent (a : Nat) (c : Call) : Call :=
+  match c.loc with
+  | .actor b => if b == a then { c with loc := .event a } else c
+  | _ => c
+
+/-- Graceful exit (`stop`, drain completion): `processing_loop` returns `Ok`, the state is boxed
+into `ActorTerminated(cell, Some(BoxedState), reason)` and sent to the supervisor (actor.rs,
+`start`); the mailbox is dropped as in any exit. Without a (live) supervisor the event — and the
+state in it — is dropped at once. A kill / failure (`exitActor`) never carries the state. -/
+def stopActor (s : S) (a : Nat) : S :=
+  match s.actors[a]? with
+  | some x =>
+    if x.alive then
+      match x.sup with
+      | some u =>
+        if supAlive s u then
+          exitActor { s with sups := s.sups.modify u (fun y => { y with inbox := y.inbox ++ [a] }),
+                             calls := s.calls.map (toEvent a) } a
+        else exitActor s a
+      | none => exitActor s a
+    else s
+  | none => s
+
+/-- a port inside an event that no live supervisor holds any more is dropped -/
+def dropOrphan (sups : List Sup) (c : Call) : Call :=
+  match c.loc with
+  | .event a => if supHolds sups a then c else { c with loc := .dropped }
+  | _ => c
+
+/-- after a supervisor dropped an event (or died): drop the ports whose event is gone -/
+def sweep (s : S) : S := { s with calls := s.calls.map (dropOrphan s.sups) }
+
+/-- `terminate()`: a dying supervisor kills every child still linked to it -/
+def killChildren (s : S) (u : Nat) : S :=
+  (List.range s.actors.length).foldl (fun s a =>
+    match s.actors[a]? with
+    | some y => if y.sup == some u then exitActor s a else s
+    | none => s) s
+
+/-- supervisor `u` is killed: the event it was handling, its supervision queue and its state
+(the stash) are dropped; its children are killed (their events find no supervisor) -/
+def supExit (s : S) (u : Nat) : S :=
+  match s.sups[u]? with
+  | some x =>
+    if x.alive then
+      killChildren (sweep { s with sups := s.sups.modify u (fun _ => { alive := false, inbox := [], stash := [] }) }) u
+    else s
+  | none => s
+
 /-- one `call`-style send of a fresh port to `a`; returns the new state and whether the send succeeded -/
 def sendCall (s : S) (a : Nat) (timeout group forward : Option Nat) : S × Bool :=
   let p := s.calls.length
   let dl := timeout.map (· + s.now)
+  -- the enumerate index of a multi_call member = how many members of its group were sent before it
+  let slot := match group with
+    | some g => (s.calls.filter (fun c => c.group == some g)).length
+    | none => 0
   if accepting s a then
-    ({ s with calls := s.calls ++ [⟨a, dl, .mailbox a, none, group, forward⟩],
+    ({ s with calls := s.calls ++ [⟨a, dl, .mailbox a, none, group, forward, p, slot⟩],
               actors := s.actors.modify a (fun x => { x with mailbox := x.mailbox ++ [.call p] }) }, true)
   else
-    ({ s with calls := s.calls ++ [⟨a, dl, .dropped, some .sendErr, group, forward⟩] }, false)
+    ({ s with calls := s.calls ++ [⟨a, dl, .dropped, some .sendErr, group, forward, p, slot⟩] }, false)
 
 /-- `multi_call`: send in order, stop at the first failing send and abandon the ports already sent. -/
 def sendMulti (s : S) (g : Nat) (timeout : Option Nat) : List Nat → S
@@ -163,9 +339,30 @@ def sendMulti (s : S) (g : Nat) (timeout : Option Nat) : List Nat → S
     else { s1 with calls := s1.calls.map (fun c =>
             if c.group == some g && c.res == none then { c with res := some .abandoned } else c) }
 
+/-- `RpcReplyPort::send(v)` on port `p`: the value is written into the channel (and recorded in
+the ghost history of sends) -/
+def replyOn (s : S) (p v : Nat) : S :=
+  { setCall s p (fun c => { c with loc := .replied v }) with sent := s.sent ++ [(p, v)] }
+
+/-! ### `multi_call` groups -/
+
+/-- the calls `multi_call` number `g` created, in port order = the order it sent them -/
+def groupMembers (s : S) (g : Nat) : List Call := s.calls.filter (fun c => c.group == some g)
+
+/-- a send of the group failed: `multi_call` returned `Err` at once (`?`), no result vector -/
+def failedRes (c : Call) : Bool := c.res == some .sendErr || c.res == some .abandoned
+def groupFailed (s : S) (g : Nat) : Bool := (groupMembers s g).any failedRes
+
+/-- every member has its result: the `JoinSet` is exhausted and `multi_call` returns -/
+def groupDone (s : S) (g : Nat) : Bool := (groupMembers s g).all (fun c => c.res.isSome)
+
+/-- The result vector `multi_call` returns: `results[i]` is written through the index `i` threaded
+into the `i`-th receiver's task (rpc.rs), i.e. it is the result of the `i`-th call sent. -/
+def groupResults (s : S) (g : Nat) : List (Option Res) := (groupMembers s g).map (·.res)
+
 def applyAct (s : S) (p : Nat) (holder : Nat) (act : Act) : S :=
   match act with
-  | .reply v => setCall s p (fun c => { c with loc := .replied v })
+  | .reply v => replyOn s p v
   | .drop => setCall s p (fun c => { c with loc := .dropped })
   | .keep => setCall s p (fun c => { c with loc := .actor holder })
   | .detach => setCall s p (fun c => { c with loc := .detached })
@@ -176,7 +373,7 @@ def handleCore (s : S) (a : Nat) (act : Act) : S :=
   | some x =>
     if !x.alive then s else
     match x.mailbox with
-    | [] => if x.draining then exitActor s a else s       -- the drain marker: stop by itself
+    | [] => if x.draining then stopActor s a else s       -- the drain marker: stop by itself (gracefully)
     | .call p :: _ =>
       applyAct (setActor s a (fun y => { y with mailbox := y.mailbox.tail })) p a act
     | .fwd v :: _ =>
@@ -184,31 +381,68 @@ def handleCore (s : S) (a : Nat) (act : Act) : S :=
   | none => s
 
 def stepCore (s : S) : Op → S
-  | .spawn => { s with actors := s.actors ++ [⟨true, false, [], []⟩] }
+  | .spawn => { s with actors := s.actors ++ [{ alive := true, draining := false, mailbox := [], received := [], sup := none }] }
   | .call a t => (sendCall s a t none none).1
-  | .mcall as t => { sendMulti s s.groups t as with groups := s.groups + 1 }
+  | .mcall as t =>
+    let s' := sendMulti s s.groups t as
+    { s' with groups := s.groups + 1, mreqs := s.mreqs ++ [as],
+              mresults := s.mresults ++ [List.replicate (s'.calls.filter (fun c => c.group == some s.groups)).length none] }
   | .fcall a f t => (sendCall s a t none (some f)).1
   | .handle a act => handleCore s a act
   | .later p act =>
     match s.calls[p]? with
     | some c =>
       (match c.loc, act with
-       | .actor _, .reply v => setCall s p (fun c => { c with loc := .replied v })
-       | .detached, .reply v => setCall s p (fun c => { c with loc := .replied v })
+       | .actor _, .reply v => replyOn s p v
+       | .detached, .reply v => replyOn s p v
        | .actor _, .drop => setCall s p (fun c => { c with loc := .dropped })
        | .detached, .drop => setCall s p (fun c => { c with loc := .dropped })
+       -- the supervisor takes the port out of a state it stashed (`BoxedState::take`)
+       | .event a, .reply v => if supStashed s.sups a then replyOn s p v else s
+       | .event a, .drop => if supStashed s.sups a then setCall s p (fun c => { c with loc := .dropped }) else s
        | _, _ => s)
     | none => s
   | .exit a => exitActor s a
-  | .stop a act => exitActor (handleCore s a act) a
+  | .stop a act => stopActor (handleCore s a act) a
   | .drain a => setActor s a (fun x => if x.alive then { x with draining := true } else x)
   | .advance d => { s with now := s.now + d }
+  | .spawnSup => { s with sups := s.sups ++ [{ alive := true, inbox := [], stash := [] }] }
+  | .spawnl u =>
+    if supAlive s u then
+      { s with actors := s.actors ++ [{ alive := true, draining := false, mailbox := [], received := [], sup := some u }] }
+    else s
+  | .suphandle u keep =>
+    match s.sups[u]? with
+    | some x =>
+      if !x.alive then s else
+      match x.inbox with
+      | [] => s
+      | a :: rest =>
+        if keep then { s with sups := s.sups.modify u (fun y => { y with inbox := rest, stash := y.stash ++ [a] }) }
+        else sweep { s with sups := s.sups.modify u (fun y => { y with inbox := rest }) }
+    | none => s
+  | .supdrop u a =>
+    match s.sups[u]? with
+    | some x =>
+      if x.alive && x.stash.contains a then
+        sweep { s with sups := s.sups.modify u (fun y => { y with stash := y.stash.erase a }) }
+      else s
+    | none => s
+  | .supexit u => supExit s u
+  | .fail a =>
+    match s.actors[a]? with
+    | some x => if x.alive && !x.mailbox.isEmpty then exitActor s a else s
+    | none => s
+  | .handleAt a act d => { handleCore s a act with now := (handleCore s a act).now + d }
+  | .cast a v =>
+    { s with actors := s.actors.modify a (fun x =>
+        if x.alive && !x.draining then { x with mailbox := x.mailbox ++ [.fwd v] } else x) }
 
 /-- A draining actor whose mailbox is empty has reached its drain marker: it stops by itself. -/
 def drainExits (s : S) : S :=
   (List.range s.actors.length).foldl (fun s a =>
     match s.actors[a]? with
-    | some x => if x.alive && x.draining && x.mailbox.isEmpty then exitActor s a else s
+    | some x => if x.alive && x.draining && x.mailbox.isEmpty then stopActor s a else s
     | none => s) s
 
 def step (s : S) (op : Op) : S := resolve (drainExits (stepCore s op))
@@ -231,13 +465,15 @@ def callOk (now : Nat) (c : Call) : Bool :=
      (match c.loc with | .replied _ => false | .dropped => false | _ => true) &&
      (match c.deadline with | some d => decide (now < d) | none => true))
 
-/-- Ports located in a dead actor do not exist: everything a stopped callee still owned was dropped. -/
-def locOk (actors : List Actor) (c : Call) : Bool :=
+/-- Ports located in a dead actor do not exist: everything a stopped callee still owned was dropped
+— or travelled, inside its last state, into a termination event that a LIVE supervisor holds. -/
+def locOk (actors : List Actor) (sups : List Sup) (c : Call) : Bool :=
   match c.loc with
   | .mailbox a => (match actors[a]? with | some x => x.alive | none => false)
   | .actor a => (match actors[a]? with | some x => x.alive | none => false)
+  | .event a => supHolds sups a
   | _ => true
 
-def ok (s : S) : Bool := s.calls.all (fun c => callOk s.now c && locOk s.actors c)
+def ok (s : S) : Bool := s.calls.all (fun c => callOk s.now c && locOk s.actors s.sups c)
 
 end Rpc
